@@ -15,7 +15,7 @@ import os
 import re
 import time
 
-from vlib.chglue import PART_K, PART_N, TIER, THOROUGH, KNOWN_OFF, in_part, reset_defaults, concrete, known_open
+from vlib.chglue import PART_K, PART_N, TIER, THOROUGH, KNOWN_OFF, in_part, reset_defaults, concrete, known_open, forked
 import hl7apy
 from hl7apy.core import Segment
 from hl7apy.parser import parse_segment
@@ -396,6 +396,42 @@ def _assign(s, where):
         return True        # an empty value is trimmed together with its separators: not this obligation's subject
     return _counts(seg.to_er7()) == before
 
+# ---- S.pairs: the result of escaping does not depend on what was escaped before in the same process ----------------------------
+STATE_ITEMS = [(fam, esc, text) for fam in ('base', 'v27') for esc in ('\\', '@', '$')
+               for text in ('a%sF%sb', 'a%sL%sb', 'a%sb#', '|x%s', 'plain')]
+NSTATE = len(STATE_ITEMS)
+_ALONE = {}
+
+
+def _state_run(items):
+    out = None
+    for fam, esc, text in items:
+        roles = ROLES4 + (['TRUNCATION'] if fam == 'v27' else [])
+        ec = dict(zip(roles, '|^&~#'))
+        ec['ESCAPE'] = esc
+        out = family_class(fam)(text.replace('%s', esc), validation_level=2).to_er7(ec)
+    return out
+
+
+def state_pair(a, b, trace=None):
+    if b not in _ALONE:
+        _ALONE[b] = forked(lambda: _state_run([STATE_ITEMS[b]]))
+    got = forked(lambda: _state_run([STATE_ITEMS[a], STATE_ITEMS[b]]))
+    if trace is not None:
+        trace.append('after %r, %r encodes as %r ; in a fresh process as %r' % (STATE_ITEMS[a], STATE_ITEMS[b], got, _ALONE[b]))
+    return got == _ALONE[b]
+
+
+def _ob_state(a: int, b: int) -> bool:
+    """
+    pre: 0 <= a < NSTATE and 0 <= b < NSTATE
+    pre: in_part(a)
+    post: _
+    """
+    a, b = _bs(a, NSTATE), _bs(b, NSTATE)
+    with concrete():
+        return state_pair(a, b)
+
 
 def explain(call):
     m = re.match(r'(\w+)\((.*)\)$', call, re.S)
@@ -410,6 +446,9 @@ def explain(call):
         o = cls(s, validation_level=2).to_er7(ec)
         out.append('%s: %s(%r).to_er7(%r) = %r ; escaped again = %r ; tokenises=%s' % (
             ob, cls.__module__ + '.ST', s, ec, o, cls(o, validation_level=2).to_er7(ec), tokenises(o, esc, family_letters(family))))
+    elif m.group(1) == '_ob_state':
+        v = dict(zip(['a', 'b'], a)); v.update(kw)
+        state_pair(v['a'], v['b'], out)
     elif m.group(1) in ('_ob_x_base', '_ob_x_v27'):
         s = _xstr(a[0] if a else kw['r'])
         family = 'base' if m.group(1) == '_ob_x_base' else 'v27'
@@ -442,6 +481,9 @@ SPEC = {
          'bound': 'unmodified v2.5 ST and the real re module, default delimiters: O1-O4 for every string of length <=%d over %r (%d strings)' % (MAXS, ''.join(XALPH), NX)},
         {'name': 'X.v27', 'fn': '_ob_x_v27', 'parts': 16, 'cond_timeout': 2400, 'path_timeout': 60,
          'bound': 'unmodified v2.7 ST and the real re module, default delimiters incl. truncation: the same %d strings' % NX},
+        {'name': 'S.pairs', 'fn': '_ob_state', 'parts': 8, 'cond_timeout': 900, 'path_timeout': 60,
+         'bound': 'every ordered pair of %d (kernel family, escape character, text) encodings, each pair in a fresh forked process: the second '
+                  'result equals what the same call returns in a fresh process (no state carried between encodings)' % NSTATE},
         {'name': 'O6.assign', 'fn': '_ob_assign', 'parts': 8, 'cond_timeout': 1500, 'path_timeout': 60,
          'bound': 'ST/IS(s) assigned to a subcomponent / component / field of a populated PID, every s of length <=3 over the '
                   'cross-check alphabet (%d strings): separator counts of the segment unchanged' % NX3},
